@@ -274,6 +274,15 @@ class StmtMixin:
             d, k = vals
             if isinstance(d.t, TRef) or (isinstance(d.t, TOpt) and isinstance(d.t.inner, TRef)):
                 # obj[key] = v on an object: its class's __setitem__ (contracted repo method or assumed external one)
+                # an assumed contract may be given per literal key: ext:<Class>.__setitem__[<key>]
+                dt = d.t.inner if isinstance(d.t, TOpt) else d.t
+                keyed = None
+                if k.const is not None and isinstance(k.const.v, str):
+                    keyed = self.reg.funs.get(f"ext:{dt.cls}.__setitem__[{k.const.v}]")
+                if keyed is not None:
+                    for s4, r in self.call_contract(keyed, [d, k, v], {}, s2, tgt, params=keyed.types.get("__params__")):
+                        out.append(self._raise(s4, r) if isinstance(r, Raised) else (s4, NORMAL))
+                    continue
                 for s3, m in self.getattr(d, "__setitem__", s2, tgt):
                     for s4, r in self.apply(m, [k, v], {}, s3, tgt):
                         out.append(self._raise(s4, r) if isinstance(r, Raised) else (s4, NORMAL))
